@@ -193,7 +193,7 @@ def check(chk: Check) -> None:
                             '(completed production, lookahead) pair', floor=100)
     R2 = chk.rule('C06.R2', 'nothing derivable is silently cut off: no reduce/reduce conflict, no production that is never '
                             'reduced unless its sentences are derived by a sibling, every default resolution belongs to '
-                            'a justified family (greedy tail, index-vs-slice)', floor=3)
+                            'a justified family (greedy tail, index-vs-slice)', floor=2)
     R3 = chk.rule('C06.R3', 'lexer and grammar agree on the alphabet: every terminal is producible by the lexer, keyword '
                             'terminals are in the keyword table, tokens and precedence rows are consistent', floor=25)
     R4 = chk.rule('C06.R4', 'templates are well-kinded: fields receive values of the declared kind, no p[i] beyond the '
@@ -260,6 +260,10 @@ def check(chk: Check) -> None:
             win, lose = g.productions[d.prod], g.productions[d.other]
             chk.bad(R2, 'reduce/reduce `%s` vs `%s` on %s' % (win, lose, d.token), '%s:%d' % (g.module.rel, lose.line),
                     'decided by definition order for `%s`: sentences that need `%s` here are rejected' % (win, lose))
+    if not any(d.kind == 'rr' for d in T.decisions):
+        chk.ok(R2, 'reduce/reduce conflicts', g.module.rel, 'none')
+    if not T.never_reduced:
+        chk.ok(R2, 'productions never reduced', g.module.rel, 'none')
     for pi in T.never_reduced:
         n2 += 1
         p = g.productions[pi]
